@@ -1736,12 +1736,15 @@ class Bag(DaskMethodsMixin):
 
 
 def accumulate_part(binop, seq, initial, is_first=False):
-    if initial is no_default:
+    if initial is no_default or initial is no_result:
+        # Nothing to carry in: this is the first partition, or all partitions
+        # before this one were empty.  ``no_result`` is passed on to the next
+        # partition if this one is empty as well.
         res = list(accumulate(binop, seq))
-    else:
-        res = list(accumulate(binop, seq, initial=initial))
+        return res, res[-1] if res else no_result
+    res = list(accumulate(binop, seq, initial=initial))
     if is_first:
-        return res, res[-1] if res else [], initial
+        return res, res[-1]
     return res[1:], res[-1]
 
 
